@@ -67,6 +67,29 @@ def build(case, ck, counter):
         ns["A_kint"] = jaxtyping.Int[jax.Array, ""]
         ns["A_kfloat"] = Float[jax.Array, ""]
         parts.append(f"{kint}: A_kint" + (" = None" if any(p.get("default") for p in case["params"]) else ""))  # (always passed explicitly)
+    if case.get("dataclass"):
+        # the decorated callable is a dataclass (its generated __init__ is what gets checked), registered as a PyTree node whose
+        # unflatten does not go through __init__ (as equinox / flax-struct style classes do), and handed to the transformations directly
+        import dataclasses
+
+        import jax.tree_util as jtu
+
+        ns["dataclasses"] = dataclasses
+        body = "\n".join("    " + part for part in parts) or "    pass"
+        exec(compile(f"@dataclasses.dataclass\nclass fn:\n{body}\n", "<vf-c17-dc>", "exec", dont_inherit=True), ns)  # (evaluated annotations)
+        with warnings.catch_warnings():
+            warnings.simplefilter("ignore")
+            cls = jaxtyped(typechecker=gc.checker(ck))(ns["fn"])
+        names = [f.name for f in dataclasses.fields(cls)]
+
+        def unflatten(_, children):
+            obj = object.__new__(cls)
+            for n_, c_ in zip(names, children):
+                object.__setattr__(obj, n_, c_)
+            return obj
+
+        jtu.register_pytree_node(cls, lambda o: (tuple(getattr(o, n_) for n_ in names), None), unflatten)
+        return cls
     retstr = ""
     if case["ret"] is not None:
         ns["A_ret"] = Float[arr_t, gc.spec_of(case["ret"])]
@@ -108,6 +131,9 @@ def check_case(ctx, case):
     obs.reset_state()
     import types as _types
 
+    if case.get("dataclass"):
+        case = dict(case, ret=None, params=[dict(p, name=("self_" if p["name"] == "self" else p["name"])) for p in case["params"]])
+    is_dc = bool(case.get("dataclass"))
     checks = [(gc.meanings_of(p), p["shape"]) for p in case["params"]]
     if case["ret"] is not None:
         checks.append((gc.meanings_of(case["ret"]), case["ret"]["shape"]))
@@ -140,7 +166,7 @@ def check_case(ctx, case):
     for name, args in fills.items():
         counter.clear()
         results[f"eager-{name}"] = outcome(lambda: f(*args))
-        if results[f"eager-{name}"] == "ok" and len(counter) != 1:
+        if results[f"eager-{name}"] == "ok" and len(counter) != 1 and not is_dc:
             raise Violation("body-count", case, f"eager call ran the body {len(counter)} times; {desc}")
     results["eager-repeat"] = outcome(lambda: f(*fills["zeros"]))
     eager = results["eager-zeros"]
@@ -156,7 +182,7 @@ def check_case(ctx, case):
     bargs = [a if ax is None else jnp.zeros(batched(a.shape, ax, B), dtype="float32") for a, ax in zip(args, in_axes)]
     in_axes2 = tuple(case["in_axes2"]) + ((None,) if case.get("int_scalar") else ())
     bbargs = [a if ax is None else jnp.zeros(batched(a.shape, ax, 2), dtype="float32") for a, ax in zip(bargs, in_axes2)]
-    scalar = lambda *a: jnp.sum(f(*a))  # noqa: E731
+    scalar = (lambda *a: sum(jnp.sum(l) for l in jax.tree_util.tree_leaves(f(*a))[:nfloat])) if is_dc else (lambda *a: jnp.sum(f(*a)))  # noqa: E731
     argnums = tuple(range(nfloat))  # (the integer argument is not differentiated)
     trans = {
         "jit": lambda: jax.jit(f)(*args),
@@ -187,7 +213,7 @@ def check_case(ctx, case):
         if got != eager:
             raise Violation("traced-vs-eager", case, f"{name}: {got}, eager: {eager}; {desc} in_axes={in_axes} in_axes2={in_axes2}")
         # one trace per transformation; JAX's tracing cache may serve jit-again / eval_shape from the earlier jit trace
-        if got == "ok" and not (len(counter) == 1 or (len(counter) == 0 and (name in ("jit-again", "eval_shape", "jit") or name.endswith("-pyscalar")))):
+        if got == "ok" and not is_dc and not (len(counter) == 1 or (len(counter) == 0 and (name in ("jit-again", "eval_shape", "jit") or name.endswith("-pyscalar")))):
             raise Violation("body-count", case, f"{name}: body traced {len(counter)} times; {desc}")
     names = {}
     for p in case["params"]:
@@ -198,7 +224,7 @@ def check_case(ctx, case):
     ctx.extra["transformed_calls"] = ctx.extra.get("transformed_calls", 0) + len(trans)
     ctx.note([[(gc.spec_of(p), p["shape"]) for p in case["params"]], case["ret"] and (gc.spec_of(case["ret"]), case["ret"]["shape"]), in_axes, in_axes2, ck],
              (len(case["params"]) >= 2 and shared) or not ref,
-             classes=([f"category-{case.get('cat')}"] if case.get("cat_params") else []) + (["python-scalar-arguments"] if any(s == () for s in shapes) else []) + (["unrelated-int-scalar-argument"] if case.get("int_scalar") else []) + (["int-scalar-argument-named-like-an-axis"] if case.get("int_scalar") and case.get("int_name") else []) + ([f"array-type-typevar-{case['typevar']}"] if case.get("typevar") else []) + [f"verdict-{eager}", f"nparams-{len(case['params'])}", f"checker-{ck}"] + (["shared-name"] if shared else []) + (["some-in_axes-None"] if None in in_axes else []) + (["parameter-named-like-axis-in-expression"] if case.get("shadowing_names") else []),
+             classes=([f"category-{case.get('cat')}"] if case.get("cat_params") else []) + (["python-scalar-arguments"] if any(s == () for s in shapes) else []) + (["dataclass-handed-to-the-transformations"] if is_dc else []) + (["unrelated-int-scalar-argument"] if case.get("int_scalar") else []) + (["int-scalar-argument-named-like-an-axis"] if case.get("int_scalar") and case.get("int_name") else []) + ([f"array-type-typevar-{case['typevar']}"] if case.get("typevar") else []) + [f"verdict-{eager}", f"nparams-{len(case['params'])}", f"checker-{ck}"] + (["shared-name"] if shared else []) + (["some-in_axes-None"] if None in in_axes else []) + (["parameter-named-like-axis-in-expression"] if case.get("shadowing_names") else []),
              sample={"params": [(p["name"], gc.spec_of(p), p["shape"]) for p in case["params"]], "ret": case["ret"] and (gc.spec_of(case["ret"]), case["ret"]["shape"]),
                      "in_axes": in_axes, "verdict": eager})
 
@@ -257,6 +283,7 @@ def c17_case(draw):
     axis_names = [a for a in axis_names if a.isascii() and a.isidentifier() and not keyword.iskeyword(a) and a not in {p["name"] for p in case["params"]}]
     case["int_name"] = draw(st.sampled_from(axis_names)) if axis_names and draw(st.integers(0, 1)) == 0 else None
     case["typevar"] = draw(st.sampled_from([None, "bound", None, "constrained", None]))
+    case["dataclass"] = draw(st.integers(0, 4)) == 0 and not any(dl.expr_holes(t.base) for t in toks_all if t.base_kind == "sym")
     case["cat"] = draw(st.sampled_from(["Float16", "Float32", "Inexact", "Float64", "Shaped", "Int", "Num", "BFloat16"]))
     case["cat_params"] = sorted(i for i in range(n) if draw(st.integers(0, 3)) == 0) if draw(st.integers(0, 1)) == 0 else []
     return case
